@@ -618,6 +618,9 @@ class ScipyMinimizeAlgorithm(
         states = {}
         for idx in dataset.indices:
             states[idx] = state.clone(disable_auto_fork=True)
+            # forget individual latent values left in the model state by a previous fit,
+            # so that the starting point only depends on the model parameters and the data
+            states[idx].put_individual_latent_variables(None)
             model.put_data_variables(states[idx], datasets[idx])
             # Get an individual initial value for minimisation
             model.put_individual_parameters(states[idx], datasets[idx])
